@@ -55,6 +55,8 @@ def parseOp (fs : List String) : Option Op :=
     | _ => none
   | ["freeze", x] => do pure (.freeze (← b? x))
   | ["restart", kind, now] => do let _ ← b? kind; pure (.restart (← now.toInt?))
+  | ["restartfault", id, now] => do pure (.restartFault (← id.toNat?) (← now.toInt?))
+  | ["unsealfault", ns, id, now] => do pure (.unsealNsFault (← ns.toNat?) (← id.toNat?) (← now.toInt?))
   | ["nsreg", ns, ttl, max, ren, now] => do
     pure (.nsReg (← ns.toNat?) (← ttl.toInt?) (← max.toInt?) (← b? ren) (← now.toInt?))
   | ["seal", ns] => do pure (.sealNs (← ns.toNat?))
